@@ -196,6 +196,19 @@ func checkCase(c Case) error {
 		}
 	}
 
+	// where the text rendering matrix neither turns nor shears (b = c = 0) there is no choice of reading: the glyphs
+	// are |d| units high - a size between the two stretch factors (their geometric mean, say) is not "the" size
+	for i, s := range m.Shown {
+		mx := math.Max(math.Abs(s.Trm[0]), math.Abs(s.Trm[3]))
+		if math.Abs(s.Trm[1]) <= 1e-12*mx && math.Abs(s.Trm[2]) <= 1e-12*mx && s.Trm[3] != 0 {
+			want := math.Abs(s.Trm[3])
+			if d := math.Abs(frags[i].FontSize - want); !(d <= 1e-6*math.Max(1, want)) {
+				return fmt.Errorf("fragment %q has font size %.6f; the text rendering matrix %v is axis-aligned and makes the glyphs %.6f high, in %q%s",
+					s.Text, frags[i].FontSize, s.Trm, want, prog, formNote(c))
+			}
+		}
+	}
+
 	// the reported size is a scale: turning the whole page by a quarter, a half or three quarters of a turn (an
 	// exact matrix, concatenated in front of the program) changes positions but no size
 	for _, turn := range []string{"0 1 -1 0 0 0 cm\n", "-1 0 0 -1 0 0 cm\n", "0 -1 1 0 0 0 cm\n"} {
